@@ -581,6 +581,8 @@ im = json.loads(p.stdout)[%(fam)r][%(elem)r]
 kind = %(kind)r
 if kind == "kron":
     v = im["N_at_nodes"]["values"][%(i)d][0][%(j)d]; e = 1.0 if %(i)d == %(j)d else 0.0
+elif kind == "shape":
+    t = im[%(t)r]["values"]; v = float(len(t)) if all(len(r) == %(d)d for r in t) else -1.0; e = %(e)r
 elif kind == "pou":
     t = im[%(t)r]["values"]; v = sum(t[i][%(d)d][0] for i in range(len(t))); e = %(e)r
 else:
@@ -630,6 +632,12 @@ def live_search(ctx):
         for ti, t in enumerate(TABS):
             vals = im[t].get("values")
             if not vals:
+                continue
+            nchk += 1
+            if len(vals) != im["nPe"] or any(len(row) != (1 if ti == 0 else dim) for row in vals):
+                found.append(("live:shape:%s:%s" % (name, t), "%s.%s() has %d rows x %s columns, expected nPe = %d rows x %d (all element types evaluated in one process, in the factory's order)" % (
+                    name, t, len(vals), sorted({len(row) for row in vals}), im["nPe"], 1 if ti == 0 else dim),
+                    rep(fam="lagrange", elem=name, kind="shape", t=t, e=float(im["nPe"]), d=(1 if ti == 0 else dim), tol=0.0)))
                 continue
             for d in range(len(vals[0])):
                 c = (d if ti > 0 else 0) * 13 + 6
